@@ -206,8 +206,9 @@ def r12_5(ctx):
     idx = get_index(ctx.env)
     fi = idx.func("Register.il_init_var")
     fr = idx.func("Register.il_read")
-    for name, access in (("Rs", "R"), ("Rss", "PR"), ("Rd", "W"), ("Rdd", "PW"), ("Rx", "RW"), ("Rxx", "PRW"), ("Ry", "RW"), ("Ryy", "PRW"), ("Rz", "RW"), ("gp", "R"), ("pc", "R"), ("pc_new", "R"), ("gp_new", "R")):
-        kw = {"is_alias": True} if name in ("gp", "pc") else {}
+    for name, access in (("Rs", "R"), ("Rss", "PR"), ("Rd", "W"), ("Rdd", "PW"), ("Rx", "RW"), ("Rxx", "PRW"), ("Ry", "RW"), ("Ryy", "PRW"), ("Rz", "RW"), ("gp", "R"), ("pc", "R"), ("pc_new", "R"), ("gp_new", "R"),
+                         ("gp", "W"), ("gp", "RW"), ("pc", "W"), ("pc", "RW"), ("R31", "W"), ("R31", "RW")):
+        kw = {"is_alias": True} if name in ("gp", "pc") else {"is_explicit": True, "reg_number": 31} if name == "R31" else {}
         if name.endswith("_new"):
             kw = {"is_alias": True, "is_new": True}
             name = name[:-4]
@@ -221,6 +222,15 @@ def r12_5(ctx):
         if has_pure:
             declared = sorted(set(re.findall(r"RzILOpPure \*(\w+) =", init_txt)))
             ctx.check(f"register {name} ({access}): the variable the READ block declares is the one reads use", declared == [name], f"RzILOpPure *{name} = ...", str(declared), fn_where(idx, fi))
+        # the operand variable: a write (WRITE_REG(bundle, <op>, ...)) and a register-file read (READ_REG(pkt, <op>, ...)) name it
+        fo = idx.func("Register.get_op_var")
+        outs = Interp(idx).explore(lambda i: i.call_function(fo, [], self_obj=reg_obj(name[:-4] if kw.get("is_new") else name, access, idx, **kw)))
+        opvars = {outcome_text(o).lstrip("&") for o in outs}
+        uses_op = ("W" in access) or any("READ_REG" in t for t in read_txt)
+        if uses_op:
+            declared_ops = set(re.findall(r"const HexOp \*?(\w+) =", init_txt))
+            ctx.check(f"register {name} ({access}): the operand variable writes / register-file reads name is declared", bool(opvars) and opvars <= declared_ops, f"const HexOp {sorted(opvars)} = ...",
+                      f"declared operands: {sorted(declared_ops)}", fn_where(idx, fi))
         ctx.check(f"register {name} ({access}): initialised pure <=> reads consume it", has_pure == consumes, "pure initialised iff il_read returns the variable", f"initialises pure={has_pure}, read -> {sorted(read_txt)}", fn_where(idx, fr))
     ctx.note("not decided statically: a readable register that is only passed by reference (or only used in sizeof) is initialised in the READ block "
              "but never consumed (leaked pure), e.g. { RdV = get_corresponding_CS(pkt, MuV); } - whether a read happens depends on the program")
